@@ -150,6 +150,32 @@ def ownership_fault(c):
     return [{"e": "fs", "op": "mkdir", "mode": "default"}] + rows if not any(r.get("op") == "mkdir" for r in rows) else rows
 
 
+def busy_pool(c):
+    """environment dimension: the runtime's blocking pool is saturated while the key keeper starts (it cannot grow: thread
+    limit) and the host answers at once.  Restricting the key directory is ordered before the first key file whatever the
+    pool does."""
+    name = "c12_busypool"
+    steps = [{"op": "hog_blocking_pool", "n": 2, "ms": 2500}, {"op": "sleep", "ms": 100},
+             plan("GET /secure-channel/status", 200, status_doc(None)),
+             plan("POST /secure-channel/key", 200, key_doc(G[0], CAN["ok1"])),
+             plan("POST /secure-channel/key/*", 200, ""),
+             {"op": "start_key_keeper", "interval_ms": 40}, {"op": "sleep", "ms": 4000}, {"op": "key_state", "tag": "busypool"}]
+    ev, d, _ = rig.run_rig({"steps": steps, "max_blocking_threads": 2, "drain_ms": 100}, name, timeout=180,
+                           strace="mkdir,mkdirat,chmod,fchmod,fchmodat,openat,creat")
+    keydir = os.path.join(d, "keys")
+    rows = fs_rows_of(os.path.join(d, "strace.log"), keydir)
+    if not any(e["e"] == "PoolHogged" for e in ev):
+        raise util.ToolError("busy-pool run: the pool was not hogged")
+    if os.path.isdir(keydir):
+        rows.append({"e": "sink", "sink": "keydir", "where": "keys (blocking pool busy)", "canary": False, "phase": "busypool",
+                     "mode": "%04o" % stat.S_IMODE(os.stat(keydir).st_mode)})
+    c.extra["busy_pool"] = {"key_files_created": sum(1 for r in rows if r.get("op") == "create")}
+    shutil.rmtree(d, ignore_errors=True)
+    if not any(r.get("op") == "create" for r in rows):
+        raise util.ToolError("busy-pool run: no key file was created")
+    return [{"e": "fs", "op": "mkdir", "mode": "default"}] + rows if not any(r.get("op") == "mkdir" for r in rows) else rows
+
+
 def crash_leftovers(c, needles):
     """fault dimension: the process is killed at the k-th rename of the latch run (the temp-file -> final-name step of
     whatever is being published: the key file among them); whatever it leaves behind anywhere -- the run directory and a
@@ -340,7 +366,7 @@ def run(c):
         if r_["canary"] and r_["sink"] != "keyfile":
             leaks.setdefault((r_["sink"], ("key material",)), []).append((r_["where"], ""))
     rows += krows
-    allrows = fs_rows + rows + ownership_fault(c)
+    allrows = fs_rows + rows + ownership_fault(c) + busy_pool(c)
     remaining = allrows
     c.traces_validated += 1
     for _ in range(10):
